@@ -212,6 +212,19 @@ impl Eut {
             Eut::V5(e) => e.sink().map(|s| s.credit()),
         }
     }
+    /// `MqttSink::is_ready()`: the precondition of the non-blocking send API
+    pub fn sink_ready(&self) -> bool {
+        match self {
+            Eut::V3(e) => e.sink().is_some_and(|s| s.is_open() && s.is_ready()),
+            Eut::V5(e) => e.sink().is_some_and(|s| s.is_open() && s.is_ready()),
+        }
+    }
+    pub fn noblock(&self) -> &Rc<crate::bed::v5::NoBlock> {
+        match self {
+            Eut::V3(e) => &e.noblock,
+            Eut::V5(e) => &e.noblock,
+        }
+    }
     pub fn sink_open(&self) -> Option<bool> {
         match self {
             Eut::V3(e) => e.sink().map(|s| s.is_open()),
